@@ -236,8 +236,7 @@ def rule_R11_5(ctx):
             gets = [c for c in f.calls() if (c.res or "").split("::")[-1] == "get"
                     and any("std::ops::Range<usize>" in t for t in c.argtys)]
             if len(gois) != 2 or not gets:
-                r.unproven.append("%s: default-bound idiom not recognised" % f.path)
-                continue
+                continue      # other idioms: see the range-lookup pass below
             terms = [guards.var_of(f, c.args[1]) for c in gois]
             zero = [t for t in terms if t == ("const", 0)]
             lens = [t for t in terms if t[0] == "len"]
@@ -257,6 +256,50 @@ def rule_R11_5(ctx):
                 r.fail("%s | read-defaults=%s" % (f.path, ",".join(guards.term_str(t) for t in terms)),
                        "omitted bounds of a range read must default to 0 and "
                        "to the length of the value being sliced", where=mir.span_loc(sp))
+    # wherever a range lookup `x.get(start..end)` lives: bounds that come out of
+    # an Option default (`unwrap_or`, `get_or_insert`) default to 0 and len(x)
+    DEFAULTING = ("unwrap_or", "get_or_insert")
+    for f in prog.hand_fns():
+        if f.from_expansion:
+            continue
+        for c in f.calls():
+            if c.is_ptr or (c.res or "").split("::")[-1] != "get" \
+                    or not any(t.startswith("std::ops::Range<") for t in c.argtys[1:]):
+                continue
+            if any((x.res or "").endswith("Option::<T>::get_or_insert") for x in f.calls()):
+                continue      # handled above
+            cp = f.canon_op(c.args[1])
+            if cp[0][0] != "agg":
+                r.unproven.append("%s: range of the lookup is not built here" % f.path)
+                continue
+            st = f.stmts(cp[0][1])[cp[0][2]]
+            kd, aops = st[2][1], st[2][2]
+            if kd.get("adt") != "std::ops::Range" or len(aops) != 2:
+                continue
+            n += 1
+            dflt = {}
+            for nm, o in zip(("start", "end"), aops):
+                t = guards.var_of(f, o)
+                if t[0] == "call" and (t[1] or "").split("::")[-1] in DEFAULTING:
+                    dc = f.call_at(t[2])
+                    dflt[nm] = guards.var_of(f, dc.args[1])
+            if len(dflt) != 2:
+                r.unproven.append("%s: bounds of the range lookup are not defaulted here" % f.path)
+                continue
+            same = False
+            if dflt["end"][0] == "len":
+                lc = f.call_at(dflt["end"][1])
+                ra = _root_arg(f, lc.args[0])
+                rb = _root_arg(f, c.args[0])
+                same = ra is not None and ra == rb
+            r.inst("%s: lookup defaults start=%s end=%s (len of the sliced value: %s)"
+                   % (f.path, guards.term_str(dflt["start"]), guards.term_str(dflt["end"]), same))
+            if dflt["start"] == ("const", 0) and same:
+                r.ok()
+            else:
+                r.fail("%s | read-defaults=%s,%s" % (f.path, guards.term_str(dflt["start"]), guards.term_str(dflt["end"])),
+                       "omitted bounds of a range read must default to 0 and "
+                       "to the length of the value being sliced", where=c.loc)
     r.require_floor("range operations with default bounds", n, 3)
     return r
 
@@ -372,14 +415,16 @@ def rule_R11_2(ctx):
             if not any(t.startswith("std::ops::Range") for t in c.argtys[1:]):
                 continue
             m += 1
-            if c.target is None or f.term(c.target)["k"] != "switch":
-                r.unproven.append("%s: result of the range lookup is not matched directly" % f.path)
-                continue
-            info = f.switch_info(c.target)
-            some_t = dict(info["cases"]).get("Some") if info and info["kind"] == "discr" else None
+            some_t = None
+            if c.target is not None and f.term(c.target)["k"] == "switch":
+                info = f.switch_info(c.target)
+                some_t = dict(info["cases"]).get("Some") if info and info["kind"] == "discr" else None
             if some_t is None:
-                r.unproven.append("%s: range lookup without a Some edge" % f.path)
-                continue
+                # the Option is converted (ok_or / map / `?`) rather than
+                # matched: success exits must at least come after the lookup
+                some_t = c.bb
+                r.unproven.append("%s: result of the range lookup is converted, not matched; "
+                                  "only `no success exit before the lookup` is checked" % f.path)
             exits = []
             for b2, i2, pl2, kd2, ao2, sp2 in f.aggregates():
                 if pl2[0] == 0 and not pl2[1] and kd2["variant"] in ("Ok", "Some") \
